@@ -331,3 +331,155 @@ Print Assumptions C03_version3_rounding_is_binary64_bounded.
 (* non-vacuity: the tables are not all empty / the float test is a real test: dim 3, sv = 5, d = 1: 5/3 - 1 = 0.666.. > 1/3 *)
 Example C03_v3_float_nonvacuous : v3_dec_float 3 5 1 = true /\ v3_dec_float 3 4 1 = false /\ v3_int_ok 3 5 = true.
 Proof. vm_compute. repeat split; reflexivity. Qed.
+
+(* ---------------------------------------------------------------------------------------------------------- *)
+(* PHASE 7.  The FULL combination-validity statement, for EVERY state the C06 invariant admits (any dimension, any tree shapes,
+   any option setting), with no `_bounded` restriction (Proofs/C03Full.v):
+     (i)   the coefficients sum to 1;
+     (ii)  every component has a non-zero coefficient, lies in the index set and has the right length and levels >= lmin;
+     (iii) the index set is downward closed above lmin;
+     (iv)  inclusion-exclusion on every hierarchical subspace l: the coefficients of the components dominating l sum to 1 if l is
+           in the index set and to 0 otherwise;
+     (v)   every point x of the union has a hierarchical level vector h (dw_level_of: per dimension the least level whose stripe
+           holds x_d) that lies in the index set, x lies in exactly the components dominating h, and the coefficients of the
+           components that contain x sum to dominating_sum h = 1;
+     (vi)  a point outside every component gets total coefficient 0 (nothing else is counted);
+     (vii) every point of a tensor grid of an index-set member is held by a component with non-zero coefficient. *)
+From SG Require Import Proofs.C03Full.
+Theorem C03_combination_valid_full : forall a b o st, DwInv a b st ->
+  let s := st_scheme st in let cs := combi_scheme_adaptive s in
+  sumZ (map snd cs) = 1 /\
+  (forall k c, In (k, c) cs -> In k (index_set s) /\ c <> 0 /\ length k = s_dim s /\ Forall (fun v => s_lmin s <= v) k) /\
+  (forall k j, In k (index_set s) -> length j = length k -> Forall2 (fun p q => s_lmin s <= p <= q) j k -> In j (index_set s)) /\
+  (forall l, length l = s_dim s -> Forall (fun v => s_lmin s <= v) l ->
+     dominating_sum cs l = if mem l (index_set s) then 1 else 0) /\
+  (forall x l0 c0, In (l0, c0) cs -> dw_in_comp o st x l0 = true ->
+     let h := dw_level_of o st x l0 in
+     In h (index_set s) /\ dw_in_comp o st x h = true /\
+     (forall l c, In (l, c) cs -> dw_in_comp o st x l = lv_geb l h) /\
+     dw_coeff_sum o st x = dominating_sum cs h /\ dw_coeff_sum o st x = 1) /\
+  (forall x, (forall l c, In (l, c) cs -> dw_in_comp o st x l = false) -> dw_coeff_sum o st x = 0) /\
+  (forall x k, In k (index_set s) -> dw_in_comp o st x k = true ->
+     exists l c, In (l, c) cs /\ c <> 0 /\ dw_in_comp o st x l = true).
+Proof. exact dw_inv_combination_valid. Qed.
+Print Assumptions C03_combination_valid_full.
+
+(* ... and it holds after EVERY history (the run exists: Proofs/DimWiseTotal.v; CombiValid is the conjunction (i)-(vii) above) *)
+Theorem C03_every_history_combination_valid : forall n lmin lmax a b o steps st0,
+  Forall2 (fun p q => (p < q)%Qc) a b -> dw_init (S n) lmin lmax a b = Some st0 ->
+  exists st, dw_run o steps st0 = Some st /\ DwInv a b st /\ CombiValid o st.
+Proof. exact dw_every_history_combination_valid. Qed.
+Print Assumptions C03_every_history_combination_valid.
+
+Theorem C03_installed_combination_valid : forall n lmin lmax a b o rb trees steps st0 st1 st,
+  Forall2 (fun p q => (p < q)%Qc) a b ->
+  dw_init (S n) lmin lmax a b = Some st0 ->
+  (forall d t, nth_error trees d = Some t -> Seg (nth d a 0%Qc) (nth d b 0%Qc) 0 0 t) ->
+  dw_install o rb trees st0 = Some st1 -> dw_run o steps st1 = Some st -> CombiValid o st.
+Proof. exact dw_installed_combination_valid. Qed.
+Print Assumptions C03_installed_combination_valid.
+
+(* NESTEDNESS.  In every state the C06 invariant admits: the 1D point sets grow with the level in every dimension (no lower bound
+   on the level needed); a point of component k lies in every component l >= k, in particular in the next finer one in any
+   dimension d (bump d 1 k); and the point lists returned by get_points_component_grid are nested accordingly. *)
+Theorem C03_components_nested : forall a b o st, DwInv a b st ->
+  (forall d l l', l <= l' -> incl (dw_P o st d l) (dw_P o st d l')) /\
+  (forall x k l, Forall2 Z.le k l -> dw_in_comp o st x k = true -> dw_in_comp o st x l = true) /\
+  (forall x k d, dw_in_comp o st x k = true -> dw_in_comp o st x (bump d 1 k) = true) /\
+  (forall k l pk pl, length k = st_dim st -> Forall2 Z.le k l ->
+     get_points_component_grid o st k = Some pk -> get_points_component_grid o st l = Some pl -> incl pk pl).
+Proof. exact dw_inv_components_nested. Qed.
+Print Assumptions C03_components_nested.
+
+(* ... after EVERY refinement history (induction over the steps via the C06 invariant: Proofs/DimWiseInvRebal.v, DimWiseTotal.v) *)
+Theorem C03_every_history_components_nested : forall n lmin lmax a b o steps st0,
+  Forall2 (fun p q => (p < q)%Qc) a b -> dw_init (S n) lmin lmax a b = Some st0 ->
+  exists st, dw_run o steps st0 = Some st /\
+    (forall d l l', l <= l' -> incl (dw_P o st d l) (dw_P o st d l')) /\
+    (forall x k l, Forall2 Z.le k l -> dw_in_comp o st x k = true -> dw_in_comp o st x l = true) /\
+    (forall x k d, dw_in_comp o st x k = true -> dw_in_comp o st x (bump d 1 k) = true) /\
+    (forall k l pk pl, length k = st_dim st -> Forall2 Z.le k l ->
+       get_points_component_grid o st k = Some pk -> get_points_component_grid o st l = Some pl -> incl pk pl).
+Proof. exact dw_every_history_components_nested. Qed.
+Print Assumptions C03_every_history_components_nested.
+
+(* non-vacuity on the two-step example above: the hierarchical level vector of (1/4, 0) is (2,1); it lies in the index set, the
+   point lies in exactly the components dominating (2,1), and the component grid (2,1) is contained in (3,1) and in (2,2) *)
+Example C03_full_nonvacuous :
+  exists st, ex_run = Some st /\
+    dw_level_of ex_o st [q 1 4; q 0 1] [3; 1] = [2; 1] /\ In [2; 1] (index_set (st_scheme st)) /\
+    dominating_sum (combi_scheme_adaptive (st_scheme st)) [2; 1] = 1 /\
+    sumZ (map snd (combi_scheme_adaptive (st_scheme st))) = 1 /\
+    dw_coeff_sum ex_o st [q 1 4; q 1 4] = 0 /\
+    (forall x, dw_in_comp ex_o st x [2; 1] = true ->
+       dw_in_comp ex_o st x [3; 1] = true /\ dw_in_comp ex_o st x [2; 2] = true).
+Proof.
+  destruct ex_run as [st|] eqn:E; [|vm_compute in E; discriminate].
+  exists st. split; [reflexivity|].
+  assert (H1 : option_map (fun st => dw_level_of ex_o st [q 1 4; q 0 1] [3; 1]) ex_run = Some [2; 1]) by (vm_compute; reflexivity).
+  assert (H2 : option_map (fun st => mem [2; 1] (index_set (st_scheme st))) ex_run = Some true) by (vm_compute; reflexivity).
+  assert (H3 : option_map (fun st => dominating_sum (combi_scheme_adaptive (st_scheme st)) [2; 1]) ex_run = Some 1)
+    by (vm_compute; reflexivity).
+  assert (H4 : option_map (fun st => sumZ (map snd (combi_scheme_adaptive (st_scheme st)))) ex_run = Some 1) by (vm_compute; reflexivity).
+  assert (H5 : option_map (fun st => dw_coeff_sum ex_o st [q 1 4; q 1 4]) ex_run = Some 0) by (vm_compute; reflexivity).
+  rewrite E in H1, H2, H3, H4, H5. cbn [option_map] in H1, H2, H3, H4, H5.
+  split; [congruence|]. split; [apply Proofs.SchemeBasics.mem_In; congruence|]. split; [congruence|]. split; [congruence|].
+  split; [congruence|].
+  unfold ex_run in E. destruct (dw_init 2 1 2 ex_a ex_b) as [st0|] eqn:E0; [|discriminate].
+  assert (HD : DwInv ex_a ex_b st).
+  { eapply (Proofs.DimWiseInvRebal.dw_reachable_inv_any 1 1 2 ex_a ex_b ex_o ex_steps st0 st); [repeat constructor | exact E0 | exact E]. }
+  destruct (C03_components_nested ex_a ex_b ex_o st HD) as (_ & M & B & _).
+  intros x Hx. split.
+  - exact (B x [2; 1] 0%nat Hx).
+  - exact (B x [2; 1] 1%nat Hx).
+Qed.
+
+(* ---------------------------------------------------------------------------------------------------------- *)
+(* PHASE 7 (3).  C03_version3_rounding_is_binary64_bounded restated over EXACT rationals for ALL inputs (every dim >= 1, sv >= 0,
+   d < dim), with each rounding step an explicit parameter (Proofs/DimWiseV3Rounded.v): x = rounded sv / dim, y = rounded
+   x - int(x), z = rounded d / dim, with error bounds e1, e2, e3.  Checked conditions: int(x) is the integer quotient (v3_int_ok is
+   the binary64 form of this check) and (e1 + e2 + e3) * dim < 1 (binary64: e_i <= 2^-53 * (sv / dim + 1), i.e. all sv * dim < 2^50).
+   Then `y > z` is the exact decision d < sv mod dim, except possibly at the tie sv mod dim = d, where the exact difference is 0;
+   with no rounding error it is the exact decision everywhere. *)
+From SG Require Import Proofs.DimWiseV3Rounded.
+Theorem C03_version3_rounding_exact_rationals : forall (dim : nat) (sv : Z) (d : nat) (x y z e1 e2 e3 : Q),
+  (1 <= dim)%nat -> (0 <= sv)%Z -> (d < dim)%nat ->
+  (Qabs.Qabs (x - inject_Z sv / inject_Z (Z.of_nat dim)) <= e1)%Q ->
+  Qround.Qfloor x = (sv / Z.of_nat dim)%Z ->
+  (Qabs.Qabs (y - (x - inject_Z (Qround.Qfloor x))) <= e2)%Q ->
+  (Qabs.Qabs (z - inject_Z (Z.of_nat d) / inject_Z (Z.of_nat dim)) <= e3)%Q ->
+  ((e1 + e2 + e3) * inject_Z (Z.of_nat dim) < 1)%Q ->
+  (sv mod Z.of_nat dim)%Z <> Z.of_nat d \/ (e1 + e2 + e3 == 0)%Q ->
+  v3_dec_rounded y z = v3_dec_exact dim sv d.
+Proof. exact v3_rounded_decision. Qed.
+Print Assumptions C03_version3_rounding_exact_rationals.
+
+Theorem C03_version3_unrounded_is_exact : forall (dim : nat) (sv : Z) (d : nat),
+  (1 <= dim)%nat -> (0 <= sv)%Z -> (d < dim)%nat ->
+  let x := (inject_Z sv / inject_Z (Z.of_nat dim))%Q in
+  Qround.Qfloor x = (sv / Z.of_nat dim)%Z ->
+  v3_dec_rounded (x - inject_Z (Qround.Qfloor x))%Q (inject_Z (Z.of_nat d) / inject_Z (Z.of_nat dim))%Q = v3_dec_exact dim sv d.
+Proof. exact v3_unrounded_decision_is_exact. Qed.
+Print Assumptions C03_version3_unrounded_is_exact.
+
+(* non-vacuity: dim 3, sv 5, d 1 with a rounding error of 1/1000 in the quotient: the hypotheses hold and the decision is `true`;
+   and the tie is a real exception: dim 3, sv 4, d 1 (4 mod 3 = 1) with the same error decides `true` where the exact test says
+   `false` - so the side condition cannot be dropped *)
+Example C03_v3_rounded_nonvacuous :
+  v3_dec_rounded ((5 # 3) + (1 # 1000) - 1)%Q (1 # 3)%Q = true /\ v3_dec_exact 3 5 1 = true /\
+  v3_dec_rounded ((4 # 3) + (1 # 1000) - 1)%Q (1 # 3)%Q = true /\ v3_dec_exact 3 4 1 = false.
+Proof.
+  split; [|split; [reflexivity|split; reflexivity]].
+  rewrite (C03_version3_rounding_exact_rationals 3 5 1 ((5 # 3) + (1 # 1000))%Q ((5 # 3) + (1 # 1000) - 1)%Q (1 # 3)%Q
+             (1 # 1000)%Q 0%Q 0%Q).
+  - reflexivity.
+  - repeat constructor.
+  - discriminate.
+  - repeat constructor.
+  - vm_compute. discriminate.
+  - vm_compute. reflexivity.
+  - vm_compute. discriminate.
+  - vm_compute. discriminate.
+  - vm_compute. reflexivity.
+  - left. vm_compute. discriminate.
+Qed.
